@@ -131,6 +131,9 @@ pub struct StakeScen {
     seed: u64,
     /// `cw4stakewide`: 36 actors (C20)
     wide: bool,
+    /// set by `small_scope`: the balances every following `start` uses instead of drawing them per trace (the
+    /// enumeration prunes all continuations of a failed op, which is only sound when every trace runs in the same world)
+    small_bal: Option<Vec<u128>>,
 }
 
 impl StakeScen {
@@ -149,6 +152,7 @@ impl StakeScen {
             heights: vec![],
             seed: 0,
             wide: false,
+            small_bal: None,
         }
     }
 
@@ -663,6 +667,10 @@ impl Scenario for StakeScen {
                 _ => if rng.chance(1, 2) { 0 } else { 50_000 },
             })
             .collect();
+        let bal = match &self.small_bal {
+            Some(b) => (0..p.len()).map(|i| b.get(i).cloned().unwrap_or(0)).collect(),
+            None => bal,
+        };
         self.setup(p, bal);
         self.seed = seed;
         self.header(seed, trace)
@@ -824,6 +832,104 @@ impl Scenario for StakeScen {
                 format!("exec {snd} remove_hook addr={h}")
             }
         }
+    }
+
+    /// Small scope: `tokens_per_weight` 2, `min_bond` 2 (stake 1 = no member, 2 and 3 = weight 1, 4 = weight 2),
+    /// admin p0, stakers p0 and p1, amounts 1/2/3.
+    /// Variant 0: native denom, unbonding period 2 blocks, fresh contract; the `env` line jumps 2 blocks, exactly to
+    /// the release point of a claim created in the first block (claims created after the jump never mature).
+    /// Variant 1: native denom, unbonding period 10 s, an accepting hook registered, and a world in mid-life: p0 has
+    /// bonded 3 and unbonded 1 in the first block, the sequences start in the next block (+5 s); the `env` line goes
+    /// to the block after (+10 s): the pending claim is exactly at its release point, a claim created in the
+    /// starting block is 5 s short of it.
+    /// Variant 2: cw20 denom (bonding through the token's `Send`), unbonding period 2 blocks, fresh contract; the
+    /// `env` line jumps 3 blocks (strictly past the period).
+    /// One `env` line per variant: two different ones could be applied in descending order, and a block height
+    /// that goes backwards is outside the model (and outside what the snapshot maps of the contract support).
+    /// The world is the same in every trace: p0 owns 5 stake tokens (8 in variant 1, 5 after the prefix has bonded
+    /// 3), p1 owns 3, nobody else owns any (`small_bal`), so running out of tokens is within reach of the sequences.
+    fn small_scope(&mut self, variant: u64) -> Option<SmallScope> {
+        if self.wide || variant > 2 {
+            return None;
+        }
+        self.small_bal = Some(vec![if variant == 1 { 8 } else { 5 }, 3]);
+        let (p0, p1) = (self.pool[0].clone(), self.pool[1].clone());
+        let b = self.app.block_info();
+        let (h, t) = (b.height, b.time.nanos());
+        let env = |dh: u64| format!("env height={} time={}", h + dh, t + dh * 5_000_000_000);
+        let (hk, hbad) = (self.hooks_ok[0].clone(), self.hook_bad.clone());
+        let (token, ftoken) = (self.token.clone(), self.ftoken.clone());
+        let inst = |denom: &str, unbond: &str| format!("inst denom={denom} tpw=2 min_bond=2 unbond={unbond} admin=+{p0}");
+        let mut al: Vec<String> = vec![];
+        let prefix = match variant {
+            0 => vec![inst("native", "h2")],
+            1 => vec![
+                inst("native", "t10"),
+                format!("exec {p0} add_hook addr=+{hk}"),
+                format!("exec {p0} bond funds={STAKE_DENOM}:3"),
+                format!("exec {p0} unbond amt=1"),
+                env(1),
+            ],
+            _ => vec![inst("cw20", "h2")],
+        };
+        if variant < 2 {
+            al.push(format!("exec {p0} bond funds={STAKE_DENOM}:1"));
+            al.push(format!("exec {p0} bond funds={STAKE_DENOM}:2"));
+            al.push(format!("exec {p0} bond funds={STAKE_DENOM}:3"));
+            al.push(format!("exec {p1} bond funds={STAKE_DENOM}:2"));
+            al.push(format!("exec {p0} bond funds={OTHER_DENOM}:2"));
+            al.push(format!("exec {p0} bond funds={STAKE_DENOM}:2,{OTHER_DENOM}:1"));
+            if variant == 0 {
+                al.push(format!("exec {p0} bond funds=-"));
+                al.push(format!("send {p0} token={token} amt=2 msg=bond"));
+            }
+        } else {
+            al.push(format!("send {p0} token={token} amt=1 msg=bond"));
+            al.push(format!("send {p0} token={token} amt=2 msg=bond"));
+            al.push(format!("send {p0} token={token} amt=3 msg=bond"));
+            al.push(format!("send {p1} token={token} amt=2 msg=bond"));
+            al.push(format!("send {p0} token={ftoken} amt=2 msg=bond"));
+            al.push(format!("send {p0} token={token} amt=2 msg=junk"));
+            al.push(format!("exec {p0} receive sender=+{p0} amt=2 msg=bond"));
+            al.push(format!("exec {p0} bond funds={STAKE_DENOM}:2"));
+        }
+        al.push(format!("exec {p0} unbond amt=1"));
+        al.push(format!("exec {p0} unbond amt=2"));
+        al.push(format!("exec {p0} unbond amt=3"));
+        al.push(format!("exec {p1} unbond amt=2"));
+        al.push(format!("exec {p0} claim"));
+        al.push(format!("exec {p1} claim"));
+        al.push(format!("donate {p1} amt=1"));
+        match variant {
+            0 => {
+                al.push(format!("exec {p0} add_hook addr=+{hk}"));
+                al.push(format!("exec {p0} add_hook addr=+{hbad}"));
+                al.push(format!("exec {p0} remove_hook addr=+{hk}"));
+                al.push(format!("exec {p1} add_hook addr=+{hk}"));
+                al.push(format!("exec {p0} update_admin admin=+{p1}"));
+            }
+            1 => {
+                al.push(format!("exec {p0} add_hook addr=+{hk}"));
+                al.push(format!("exec {p0} add_hook addr=+{hbad}"));
+                al.push(format!("exec {p0} remove_hook addr=+{hk}"));
+                al.push(format!("exec {p0} remove_hook addr=+{hbad}"));
+                al.push(format!("exec {p0} update_admin admin=-"));
+            }
+            _ => {
+                al.push(format!("exec {p0} add_hook addr=+{hk}"));
+                al.push(format!("exec {p0} remove_hook addr=+{hk}"));
+                al.push(format!("exec {p0} update_admin admin=+{p1}"));
+            }
+        }
+        al.push(match variant {
+            0 => env(2),
+            1 => env(2),
+            _ => env(3),
+        });
+        al.push("query list_members after=- limit=1".to_string());
+        // a height between the two blocks of variants 0 and 2; the current block of variant 1
+        al.push(format!("query member addr=+{p0} at={}", h + 1));
+        Some(SmallScope { prefix, alphabet: al })
     }
 
     fn apply(&mut self, op: &str) -> Vec<String> {
